@@ -37,6 +37,21 @@ CLAIMS = {
         "note": "Does not prove that every well-typed input type-checks after expansion (trait solving over arbitrary field types). Lint behaviour inside expansions as observed on the installed toolchains.",
         "technique": "static analysis: template (quote!) token-tree lint with rustc-typed interpolations (MIR var_debug_info join) and def-use provenance",
     },
+    "C19": {
+        "text": "Decided on rustc's own MIR of derive_more-impl with every feature on: every HashMap/HashSet instantiation uses the fixed-state hasher, no resolved call reaches an "
+        "ambient-state API (random seeds, clocks, env, fs, threads, locks/atomics, source positions), no pointer->integer cast, no static/thread_local/lazy state survives an expansion. "
+        "Holds for every derive input because it is a property of the generator's code, not of a sample of expansions.",
+        "note": "Purity of syn/quote/proc-macro2/convert_case/unicode-xid and of DefaultHasher::default() is assumed, not analysed. Calls through generics are resolved where rustc can (Instance::try_resolve); unresolved trait calls are matched by their trait path.",
+        "technique": "static analysis: effect/ambient-authority analysis over type-checked MIR (rustc_private driver), hashed-collection instantiation audit",
+        "engine": "dmmir",
+    },
+    "C20": {
+        "text": "Proof-style cfg algebra: for every derive_more:: path a template can emit (interpolated trait names resolved by constant evaluation of the generator's string tables), the feature gate of the emitting code "
+        "implies the gate of the facade export, over all feature assignments (exhaustive truth tables); manifests wired consistently (full = all derives, forwarding, optional deps). "
+        "Plus rustc's type-check of both crates for each single feature x {std,no-std} (quick) and all pairs + each derive's test program (--tests) in thorough tier.",
+        "note": "Run-time 'test program passes' is not decided (only type-checked). One listed, guard-checked exception: add_like's enum-only templates under `mul` alone (mul(forward) is struct-only).",
+        "technique": "static analysis: cfg-predicate implication (exhaustive evaluation) between emitting code and facade exports + compiler type-check per feature configuration",
+    },
     "C15": {
         "text": "Static name-resolution analysis of all quote!/parse_quote! templates: each template is the universal expansion for every input that reaches it, so a verdict on the 247 templates "
         "covers all derive inputs, attribute modes and caller scopes. Decides: no path root, macro name or trait-method call in generated code resolves through the caller's scope; every derive_more:: path has a backing export.",
